@@ -217,7 +217,11 @@ def exec_for(E, s):
                     n = z3.Int(fresh_name(name + '.len'))
                     E.assume(n >= 0)
                     env[name] = Arr(v.ident, (n,), v.ty, 'list')
+            elif isinstance(v, PyList) and name in (spec.get('opaque_lists') or []):
+                env[name] = PyList(v.ident, [])      # a list only appended to; its contents are not tracked
             elif isinstance(v, Frame):
+                if name in assigned_names(s.body):
+                    continue                          # re-created in every iteration
                 raise Unsupported('frame mutated in symbolic loop: %s' % name)
             elif v is None:
                 continue
@@ -242,6 +246,10 @@ def exec_for(E, s):
             pass
         except BreakSig:
             return
+        for j, be in enumerate(spec.get('body_ensures') or []):
+            # facts about the locals of an arbitrary iteration (per-iteration postcondition)
+            E.oblige('body-ensures', E.spec_bool(be, inv_env(Z(k, INT))), s,
+                     name='%s/loop%d/body-ensures#%d' % (E.fn_short, ordinal, j + 1))
         using = spec.get('using')
         for j, inv in enumerate(invs):
             goal = E.spec_bool(inv, inv_env(Z(k + 1, INT)))
